@@ -473,6 +473,17 @@ def enumerated_mms() -> List[Dict[str, Any]]:
         mm([cls("something", ["x"])]),
         mm([cls("Something", ["type", "Type"])]),
         mm([cls("Something", ["a__b", "a_b"])]),
+        # (added with the repairs of C21-F1 … F37: variants that the coarse sigs of the former findings had masked)
+        mm(base, [], ["matches_x", "_matches_x"]),   # java / typescript: construct<Name> of a pattern verification
+        mm(base, [], ["matches_x", "MATCHES_x"]),    # golang: <name>Re of a pattern verification (private name)
+        mm([cls("Thing", ["_url", "URL"])]),         # java getters / typescript set<Prop>FromJsonable
+        mm([cls("Thing", ["url", "URL"])]),          # golang private struct fields
+        mm([cls("Color", ["x"]), cls("COLOR", ["y"])]),  # golang colorToMap
+        mm([cls("Stem", ["a__b"], abstract=True), cls("Something", ["a_b"], parent="Stem")]),  # inherited + own JSON / XML name
+        mm([enum("Thing1", ["Red"]), cls("Thing_1", ["x"], abstract=True), cls("Leaf", ["y"], parent="Thing_1")]),  # golang Thing1FromJsonable
+        mm([cls("ModelType", ["x"])]),
+        mm([enum("Model__type", ["A"]), cls("Something", ["x"])]),
+        mm([cls("Foo", ["x"]), cls("Model_type_foo", ["y"])]),  # golang: the global constant ModelTypeFoo vs the struct
     ]
     return out
 
@@ -717,8 +728,8 @@ def impl_verify_sdk(symbol_table: Any, target: str) -> str:
 
 
 SCHEMA_COLLISION_RE = {
-    "jsonschema": re.compile(r"has been\s+already provided in the definitions"),
-    "xsd": re.compile(r"conflicting definitions in the schema"),
+    "jsonschema": re.compile(r"has been\s+already provided in the definitions|collides\s+with\s+the\s+JSON\s+name"),
+    "xsd": re.compile(r"conflicting definitions in the schema|collides\s+with\s+the\s+XML\s+name"),
 }
 
 
@@ -1152,7 +1163,7 @@ def correspond(ctx: Ctx) -> None:
     ctx.extra_cov["rule"] = (
         "conv: (function, identifier) pairs — all 1–3-part identifiers over 10 part shapes (case/digit/empty) x every "
         "naming function + seeded random near-collisions; non-trivial = identifier has an underscore or an upper-case letter. "
-        "verify: meta-models (corpus + 36 hand-made, one per scope kind + the seed-independent pair matrix: leaf / abstract / "
+        "verify: meta-models (corpus + 46 hand-made, one per scope kind + the seed-independent pair matrix: leaf / abstract / "
         "parent class, enumeration, constrained primitive in every combination x 9 colliding name-pair shapes, also with EQUAL "
         "content; class vs a type called I<Name>; literal pairs; property pairs at every place of a hierarchy + seeded random "
         "with a near-collision planted in a chosen scope kind, 40 % of the planted structures of equal content) x 8 targets; "
